@@ -209,7 +209,12 @@ func impliedByLit(l Lit) []Lit {
 // mustEvents returns the event tags of instructions that execute on every path of the directly called repo function.
 func mustEvents(call ssa.CallInstruction, tag func(ssa.Instruction) string, depth int) []Event {
 	f := CalleeFn(call)
-	if !summarizable(f) || depth > 1 || f.Parent() != nil {
+	if f == nil {
+		return nil
+	}
+	// a local helper closure called directly (`abort := func(…) {…}; abort(…)`) is summarised like a named helper
+	_, direct := call.Common().Value.(*ssa.MakeClosure)
+	if !(summarizable(f) || direct && f.Parent() != nil && f.Blocks != nil) || depth > 1 || (f.Parent() != nil && !direct) {
 		return nil
 	}
 	var rets []*ssa.BasicBlock
